@@ -41,8 +41,8 @@ package crypto
 //@   modifies nothing
 
 //@ -- AggregateVerify: nil signature, empty / unordered / out-of-range signers, nil or undecodable publics are reported as errors. Total.
-//@ assume func AggregateVerify(sig, publics, signers, message)
-//@   modifies nothing
+//@ -- AggregateVerify: VERIFIED contract in zz_contracts_c14_verif.go (modifies nothing, total; it replaces the assumed
+//@ -- `modifies nothing` that stood here)
 
 //@ -- KeyMultPubPriv panics on an undecodable point or a non-canonical scalar.
 //@ -- KeyMultPubPriv: VERIFIED contract in zz_contracts_c32_verif.go (same requires / panics when / modifies nothing, plus the result)
